@@ -110,3 +110,130 @@ package iterable
 //@ func (ei *EmptyIterator[V]) Next() (V, bool)
 //@   props C18
 //@   ensures !r1 && r0 == zero(V)
+
+// ---- C10 / C11: ordered map (ref-counted doubly linked list + Go map) ----
+// ghost: owner(n) = the Map whose list contains node n (nil: in no list); ord(n) = insertion stamp.
+//@ ghostfield rlItem.owner ref
+//@ ghostfield rlItem.ord int
+
+//@ pred (im *Map[K, V]) owns(n *rlItem[K, V]) = n != nil && n.owner == im
+// representation invariant
+//@ pred (im *Map[K, V]) wf() = im != nil && im.vals != nil && im.owns(im.head) && im.owns(im.last) &&
+//@    im.last.state == rlLast && im.last.next == nil && im.head.prev == nil &&
+//@    forall(n, *rlItem[K, V], im.owns(n) ==>
+//@        n.refCnt >= 0 && (n.state == rlLast || n.state == rlOk || n.state == rlDeleted) &&
+//@        (n.state == rlLast ==> n == im.last) && (n.state == rlDeleted ==> n.refCnt > 0) &&
+//@        n.ord <= im.last.ord && im.head.ord <= n.ord &&
+//@        (n.state == rlOk ==> has(im.vals, n.key) && im.vals[n.key] == n), n.owner) &&
+//@    forall(n, *rlItem[K, V], im.owns(n) && n != im.last ==> im.owns(n.next) && n.next.prev == n && n.ord < n.next.ord, n.next) &&
+//@    forall(n, *rlItem[K, V], im.owns(n) && n != im.head ==> im.owns(n.prev) && n.prev.next == n, n.prev) &&
+//@    forall(k, K, has(im.vals, k) ==> im.owns(im.vals[k]) && im.vals[k].state == rlOk && im.vals[k].key == k) &&
+//@    forall(n, *rlItem[K, V], forall(m, *rlItem[K, V], im.owns(n) && im.owns(m) && n != m ==> n.ord != m.ord, mp(n.owner, m.owner)), n.owner) &&
+//@    forall(n, *rlItem[K, V], forall(m, *rlItem[K, V], im.owns(n) && im.owns(m) && n != im.last && n.ord < m.ord ==> n.next.ord <= m.ord, mp(n.next, m.owner)), n.next)
+// abstract view: live keys = dom(vals); aval/aord of a live key
+//@ spec func (im *Map[K, V]) aval(k K) V = im.vals[k].val
+//@ spec func (im *Map[K, V]) aord(k K) int = im.vals[k].ord
+// every key other than k keeps its entry (same node, value, stamp)
+//@ pred (im *Map[K, V]) othersKept(k K) = forall(j, K, j != k ==> has(im.vals, j) == old(has(im.vals, j)) && (has(im.vals, j) ==> im.vals[j] == old(im.vals[j]) && im.aval(j) == old(im.aval(j)) && im.aord(j) == old(im.aord(j))))
+// nodes that are referenced (refCnt > 0) stay in the list with the same count: open iterators stay valid
+//@ pred (im *Map[K, V]) pinsKept() = forall(n, *rlItem[K, V], old(im.owns(n)) ==> n.refCnt == old(n.refCnt) && n.ord == old(n.ord) && (n.refCnt > 0 ==> im.owns(n)))
+
+//@ package sync
+// the pool of a Map hands out nodes that are in no list (we only ever Put unlinked nodes: precondition of Put)
+//@ assumed func (p *Pool) Get() any
+//@   ensures r0 != nil && anyType(r0) && allocated(r0) && cast(*iterable.rlItem, r0).owner == nil && cast(*iterable.rlItem, r0).refCnt == 0
+//@ assumed func (p *Pool) Put(x any)
+//@   requires x != nil && cast(*iterable.rlItem, x).owner == nil && cast(*iterable.rlItem, x).refCnt == 0
+//@ package github.com/acquirecloud/golibs/container/iterable
+
+//@ func NewMap() *Map[K, V]
+//@   props C10 C11
+//@   ghostexit r0.head.owner := r0
+//@   ensures fresh(r0) && r0.wf() && len(r0.vals) == 0 && r0.head == r0.last && r0.head.refCnt == 0
+
+//@ func (rli *rlItem[K, V]) putVal(k K, v V, rliNew *rlItem[K, V]) *rlItem[K, V]
+//@   props C10 C11
+//@   requires rli != nil && rliNew != nil && rliNew != rli
+//@   panics rli.state != rlLast
+//@   modifies rliNew.prev, rliNew.next, rliNew.state, rliNew.owner, rliNew.ord, rli.next, rli.state, rli.key, rli.val
+//@   ghostexit rliNew.owner := rli.owner
+//@   ghostexit rliNew.ord := rli.ord + 1
+//@   ensures r0 == rliNew && rliNew.prev == rli && rliNew.next == nil && rliNew.state == rlLast && rliNew.owner == rli.owner && rliNew.ord == rli.ord + 1
+//@   ensures rli.next == rliNew && rli.state == rlOk && rli.key == k && rli.val == v
+
+//@ func (rli *rlItem[K, V]) delete() *rlItem[K, V]
+//@   props C10 C11
+//@   requires rli != nil && (rli.state != rlLast ==> rli.next != nil && rli.next != rli && rli.prev != rli && rli.prev != rli.next)
+//@   modifies rli.val, rli.state, rli.next, rli.prev, rli.owner, rli.prev.next, rli.next.prev
+//@   ghostexit rli.owner := ite(old(rli.state) != rlLast && old(rli.refCnt) == 0, nil, rli.owner)
+//@   ensures old(rli.state) == rlLast ==> r0 == nil && rli.state == rlLast && rli.val == old(rli.val) && rli.next == old(rli.next) && rli.prev == old(rli.prev) && rli.owner == old(rli.owner)
+//@   ensures old(rli.state) != rlLast && rli.refCnt != 0 ==> r0 == nil && rli.state == rlDeleted && rli.val == zero(V) && rli.next == old(rli.next) && rli.prev == old(rli.prev) && rli.owner == old(rli.owner) && old(rli.next).prev == old(old(rli.next).prev) && (old(rli.prev) != nil ==> old(rli.prev).next == old(old(rli.prev).next))
+//@   ensures old(rli.state) != rlLast && rli.refCnt == 0 && old(rli.prev) != nil ==> r0 == nil && old(rli.prev).next == old(rli.next) && old(rli.next).prev == old(rli.prev)
+//@   ensures old(rli.state) != rlLast && rli.refCnt == 0 && old(rli.prev) == nil ==> r0 == old(rli.next) && old(rli.next).prev == nil
+//@   ensures old(rli.state) != rlLast && rli.refCnt == 0 ==> rli.owner == nil && rli.next == nil && rli.prev == nil && rli.state == old(rli.state)
+
+//@ func (im *Map[K, V]) Add(k K, v V) error
+//@   props C10 C11
+//@   requires im.wf()
+//@   modifies im.last, im.vals[*], im.last.next, im.last.state, im.last.key, im.last.val, each(n, *rlItem[K, V], n.owner == nil, n.prev, n.next, n.state, n.owner, n.ord)
+//@   ensures im.wf() && im.othersKept(k) && im.pinsKept() && im.head == old(im.head)
+//@   ensures old(has(im.vals, k)) ==> r0 != nil && has(im.vals, k) && im.vals[k] == old(im.vals[k]) && im.aval(k) == old(im.aval(k)) && im.aord(k) == old(im.aord(k)) && len(im.vals) == old(len(im.vals))
+//@   ensures !old(has(im.vals, k)) ==> r0 == nil && has(im.vals, k) && im.aval(k) == v && len(im.vals) == old(len(im.vals)) + 1 && forall(j, K, j != k && has(im.vals, j) ==> im.aord(j) < im.aord(k))
+//@   ensures !old(has(im.vals, k)) ==> im.vals[k] == old(im.last)
+
+//@ func (im *Map[K, V]) Get(k K) (V, bool)
+//@   props C10 C11
+//@   requires im.wf()
+//@   ensures r1 == has(im.vals, k) && (r1 ==> r0 == im.aval(k)) && (!r1 ==> r0 == zero(V))
+
+//@ func (im *Map[K, V]) Len() int
+//@   props C10 C11
+//@   requires im.wf()
+//@   ensures r0 == len(im.vals)
+
+//@ func (im *Map[K, V]) Remove(k K)
+//@   props C10 C11
+//@   requires im.wf()
+//@   modifies im.head, im.vals[*], im.vals[k].val, im.vals[k].state, im.vals[k].next, im.vals[k].prev, im.vals[k].owner, im.vals[k].prev.next, im.vals[k].next.prev
+//@   ensures im.wf() && im.othersKept(k) && !has(im.vals, k) && len(im.vals) == old(len(im.vals)) - ite(old(has(im.vals, k)), 1, 0)
+//@   ensures forall(n, *rlItem[K, V], old(im.owns(n)) ==> n.refCnt == old(n.refCnt) && n.ord == old(n.ord) && (n.refCnt > 0 || n != old(im.vals[k]) ==> im.owns(n)))
+//@   ensures forall(n, *rlItem[K, V], im.owns(n) ==> old(im.owns(n)))
+
+//@ func (im *Map[K, V]) Iterator() Iterator[MapEntry[K, V]]
+//@   props C10 C11
+//@   requires im.wf() && im.head.refCnt < 1<<62
+//@   modifies im.head.refCnt
+//@   ensures im.wf() && fresh(r0) && typeIs(r0, *mapIterator[K, V]) && cast(*mapIterator[K, V], r0).im == im && cast(*mapIterator[K, V], r0).ptr == im.head
+//@   ensures im.head.refCnt == old(im.head.refCnt) + 1
+
+// an iterator position p is valid: the node is in the list and this iterator's reference is counted
+//@ pred (im *Map[K, V]) holds(p *rlItem[K, V]) = im.owns(p) && p.refCnt >= 1
+// no node is referenced 2^62 times (resource bound; keeps refCnt++ from overflowing)
+//@ pred (im *Map[K, V]) small() = forall(n, *rlItem[K, V], im.owns(n) ==> n.refCnt < 1<<62, n.owner)
+// one reference moved from node a to node b; every other count is unchanged; only a may have left the list
+//@ pred (im *Map[K, V]) moved(a *rlItem[K, V], b *rlItem[K, V]) = forall(n, *rlItem[K, V], old(im.owns(n)) ==> n.ord == old(n.ord) && (n != a ==> im.owns(n)) && (im.owns(n) ==> n.refCnt == old(n.refCnt) - ite(n == a, 1, 0) + ite(n == b, 1, 0)) && (im.owns(n) && n.state == rlOk ==> old(n.state) == rlOk && n.key == old(n.key) && n.val == old(n.val)) && (im.owns(n) && old(n.state) == rlOk ==> n.state == rlOk), n.owner) && forall(n, *rlItem[K, V], im.owns(n) ==> old(im.owns(n)), n.owner)
+
+//@ func (im *Map[K, V]) next(p *rlItem[K, V]) *rlItem[K, V]
+//@   props C10 C11
+//@   requires im.wf() && im.holds(p) && im.small()
+//@   modifies im.head, each(n, *rlItem[K, V], n.owner == im, n.refCnt, n.val, n.state, n.next, n.prev, n.owner)
+//@   ensures im.wf() && im.holds(r0) && r0.state != rlDeleted && im.moved(p, r0) && r0.ord >= old(p.ord) && (old(p.state) != rlLast ==> r0.ord > old(p.ord))
+//@   ensures old(p.state) == rlLast ==> r0 == p
+//@   loop 1
+//@     invariant im.wf()
+//@     invariant im.holds(p) && p.ord >= old(p0.ord)
+//@     invariant im.moved(p0, p)
+//@     decreases im.last.ord - p.ord
+
+//@ func (im *Map[K, V]) getValue(p *rlItem[K, V]) *rlItem[K, V]
+//@   props C10 C11
+//@   requires im.wf() && im.holds(p) && im.small()
+//@   modifies im.head, each(n, *rlItem[K, V], n.owner == im, n.refCnt, n.val, n.state, n.next, n.prev, n.owner)
+//@   ensures im.wf() && im.holds(r0) && r0.state != rlDeleted && im.moved(p, r0) && r0.ord >= old(p.ord)
+//@   ensures old(p.state) != rlDeleted ==> r0 == p
+
+//@ func (im *Map[K, V]) release(p *rlItem[K, V])
+//@   props C10 C11
+//@   requires im.wf() && im.holds(p)
+//@   modifies im.head, p.refCnt, p.val, p.state, p.next, p.prev, p.owner, p.prev.next, p.next.prev
+//@   ensures im.wf() && im.moved(p, nil)
